@@ -6,6 +6,9 @@ CONSTANTS
   Entries <- MCEntries
   Random <- MCRandom
   Seedable <- MCSeedAll
+  Objs <- MCNoObjs
+  ObjSeed <- MCObjSeed
+  ObjEntries <- MCSeedRand
   MaxOps = 6
   Variant = "spec"
 INVARIANT TypeOK
@@ -14,5 +17,6 @@ INVARIANT TwinGeneratorsAgree
 INVARIANT DeterministicNoSeed
 INVARIANT ReseedReproducible
 PROPERTY IntSeedLeavesGlobal
+PROPERTY ObjSeedLeavesGlobal
 PROPERTY IntSeedLeavesGenerators
 PROPERTY GenCallOwnStreamOnly
